@@ -381,6 +381,14 @@ func runC16(tier string) int {
 			rep.Violate(&Violation{Diag: "format: gofmt -l lists default outputs as not formatted", Case: "gofmt cross-check", Detail: string(outb)})
 		}
 	}
+	// the -fmt flag (and the others) must reach the generator unchanged through the CLI
+	var parity []*Case
+	for _, c := range cases {
+		if c.Scope == "S-cfg" && !c.Cfg.Custom {
+			parity = append(parity, c)
+		}
+	}
+	cliParity(fx, parity, rep, "format: ")
 	rep.Set("groups_compared", groups)
 	rep.Set("oracle_crosschecks", map[string]int{"gofmt -l": gofmtChecked})
 	rep.Set("rule", "for every interface × flag set, the four generations (-fmt unset, gofmt, noop, goimports) are compared: default is a go/format fixed point with the marker first; gofmt(noop)==default; goimports has the same declarations and import paths; distinct = distinct emitted files")
